@@ -5,8 +5,11 @@ import (
 	"context"
 	"fmt"
 	"os"
+	"runtime"
 	"sort"
 	"strings"
+	"sync"
+	"time"
 
 	"github.com/pkg/errors"
 	"github.com/spikeekips/mitum/base"
@@ -102,8 +105,44 @@ func (d *DB) OpenOn() error {
 	return nil
 }
 
+// Center.dig returns as soon as one temp database has the answer and leaves the look-ups of the
+// other temps running in their goroutines; closing the leveldb under such a straggler makes
+// goleveldb panic (a process that really stops does not care). The drivers therefore take every
+// round of reads under digGate and close a storage only when no look-up of Center.dig is left.
+var digGate sync.RWMutex
+
+var stackBuf = make([]byte, 4<<20) // used under digGate.Lock only
+
+func straysLeft() bool {
+	n := runtime.Stack(stackBuf, true)
+
+	return bytes.Contains(stackBuf[:n], []byte("isaac/database.(*Center).dig"))
+}
+
+// WaitStragglers blocks new read rounds and waits until no look-up started by Center.dig is running.
+func WaitStragglers() {
+	digGate.Lock()
+	defer digGate.Unlock()
+
+	for i := 0; i < 5000 && straysLeft(); i++ {
+		time.Sleep(time.Millisecond)
+	}
+}
+
+// ReadRound runs f (calls of Center's reads) so that no storage is closed meanwhile.
+func ReadRound(f func()) {
+	digGate.RLock()
+	defer digGate.RUnlock()
+
+	f()
+}
+
 // Close closes Center, permanent store and the storage.
 func (d *DB) Close() error {
+	if d.St != nil {
+		WaitStragglers()
+	}
+
 	if d.Center != nil {
 		if err := d.Center.Close(); err != nil {
 			return err
@@ -343,7 +382,13 @@ type ObsDiff struct {
 }
 
 // Observe performs every read. keys: abstract keys; maxLen as in the spec.
-func (d *DB) Observe(r Reader, keys []string, maxLen int, wantRaw bool) *Obs {
+func (d *DB) Observe(r Reader, keys []string, maxLen int, wantRaw bool) (o *Obs) {
+	ReadRound(func() { o = d.observe(r, keys, maxLen, wantRaw) })
+
+	return o
+}
+
+func (d *DB) observe(r Reader, keys []string, maxLen int, wantRaw bool) *Obs {
 	g := d.Gen
 	enc := d.Env.Enc
 	o := &Obs{St: map[string]Ref{}, StB: map[string]Ref{}, Ilh: -1, Iso: [][]interface{}{}, Kno: [][]int{}}
